@@ -2,7 +2,7 @@
    sub_pr p p' : interval p inside p';  pinside P P' : p-box P inside P' (lower left bound, higher right bound at every step). *)
 From Coq Require Import Reals Lra List.
 From PUN Require Import Base.Num Model.Interval Model.IntervalFun Model.Pbox Model.B2B
-                        Proofs.ListR Proofs.PboxWF Proofs.IntervalOps Proofs.B2B Proofs.DepOps Proofs.Lattice Proofs.Stacking Proofs.Iso.
+                        Proofs.ListR Proofs.PboxWF Proofs.IntervalOps Proofs.B2B Proofs.DepOps Proofs.Lattice Proofs.Stacking Proofs.Iso Proofs.IsoNum.
 Import ListNotations.
 Open Scope R_scope.
 
@@ -70,6 +70,28 @@ Print Assumptions C12_perfect.
 Print Assumptions C12_envelope.
 Print Assumptions C12_stacking.
 
+(* operations with a constant and unary maps, for p-boxes on any grid: the wider operand gives the wider result *)
+Theorem C12_number_op_increasing steps plo phi (f : R -> R -> R) (c : R) p p' r r' : WF steps p -> WF steps p' -> pinside p p' ->
+  (forall a b, a <= b -> f a c <= f b c) ->
+  pnum RN steps plo phi f p c = Ok r -> pnum RN steps plo phi f p' c = Ok r' -> pinside r r'.
+Proof. exact (pnum_mono_iso steps plo phi f c p p' r r'). Qed.
+Theorem C12_number_op_decreasing steps plo phi (f : R -> R -> R) (c : R) p p' r r' : WF steps p -> WF steps p' -> pinside p p' ->
+  (forall a b, a <= b -> f b c <= f a c) ->
+  pnum RN steps plo phi f p c = Ok r -> pnum RN steps plo phi f p' c = Ok r' -> pinside r r'.
+Proof. exact (pnum_anti_iso steps plo phi f c p p' r r'). Qed.
+Theorem C12_negation steps plo phi p p' r r' : WF steps p -> WF steps p' -> pinside p p' ->
+  pneg RN steps plo phi p = Ok r -> pneg RN steps plo phi p' = Ok r' -> pinside r r'.
+Proof. exact (pneg_iso steps plo phi p p' r r'). Qed.
+Theorem C12_reciprocal steps plo phi p p' r r' : WF steps p -> WF steps p' -> pinside p p' -> (0 < steps)%nat ->
+  (0 < nth 0 (fst p') 0 \/ last (snd p') 0 < 0) ->
+  precip RN steps plo phi p = Ok r -> precip RN steps plo phi p' = Ok r' -> pinside r r'.
+Proof. exact (precip_iso steps plo phi p p' r r'). Qed.
+Theorem C12_monotone_map steps plo phi (f : R -> R) (D : R -> Prop) p p' r r' : WF steps p -> WF steps p' -> pinside p p' ->
+  (forall x, In x (fst p') \/ In x (snd p') -> D x) -> (forall x, In x (fst p) \/ In x (snd p) -> D x) ->
+  (forall a b, D a -> D b -> a <= b -> f a <= f b) ->
+  punary RN steps plo phi f p = Ok r -> punary RN steps plo phi f p' = Ok r' -> pinside r r'.
+Proof. exact (punary_iso steps plo phi f D p p' r r'). Qed.
+
 (* REFUTED for subinterval reconstitution (finding O37): with a fixed number of tiles the result for a sub-box need not lie inside the
    result for the box.  Witness on the binary64 instance of the model (decided by computation, replayed on the implementation by
    the check): f(x) = x * x, three tiles, sub-box [-1, 1] inside the box [-1, 2]. *)
@@ -80,3 +102,8 @@ Theorem C12_sub_direct_refuted :
   exists sub box r r', PrimFloat.leb (fst box) (fst sub) = true /\ PrimFloat.leb (snd sub) (snd box) = true /\
     o37_run [sub] = Ok r /\ o37_run [box] = Ok r' /\ PrimFloat.ltb (fst r) (fst r') = true.
 Proof. exists (-1, 1)%float, (-1, 2)%float. eexists. eexists. repeat split; vm_compute; reflexivity. Qed.
+Print Assumptions C12_number_op_increasing.
+Print Assumptions C12_number_op_decreasing.
+Print Assumptions C12_negation.
+Print Assumptions C12_reciprocal.
+Print Assumptions C12_monotone_map.
